@@ -21,6 +21,12 @@ func NamedConf(name string) *Conf {
 			{Path: "root.p.x", MaxApps: 2, Guar: r1("memory", 2)},
 			{Path: "root.p.y", MaxApps: 1},
 		}}
+	case "mc": // the queue layout of spec/MC_YK.tla
+		c = &Conf{Valid: true, Queues: []QConf{
+			{Path: "root.a", Max: r1("memory", 3)},
+			{Path: "root.p", Parent: true},
+			{Path: "root.p.x"},
+		}}
 	case "B":
 		c = &Conf{Valid: true, Queues: []QConf{
 			{Path: "root.a", MaxApps: 2, Max: r1("memory", 3)},
